@@ -403,6 +403,35 @@ def crossed_kept_cases(chk, hows, count):
 				chk.case("crossed_and_kept", {"how": how, "what": "kept", "seed": rng.randrange(10**9), "nl": rng.choice([2, 3]), "unique_right": unique_right, "write": write}, "kept-result")
 
 
+def run_unique_keys_expect(chk, spec):
+	"""keys unique on both sides satisfy every expectation: whichever one is passed, the rows - and their ORDER (left position, then right position) - are those of the definition"""
+	import random, warnings
+	from datetime import date, timedelta
+	rng = random.Random(spec["seed"])
+	n = spec["n"]
+	dom = {"str": ["pear", "apple", "fig", "kiwi", "lime", "plum", "date", "yam", "nut", "oat"], "int": [40, 7, 1000003, -5, 2 ** 61, 12, 0, 99, 3, 8],
+		"date": [date(2020, 1, 1) + timedelta(days=37 * i) for i in range(10)], "mixed-none": [None, "b", "a", "zz", "c", "q", "k", "m", "n", "o"]}[spec["kind"]]
+	lk = rng.sample(dom, n)
+	rk = rng.sample(dom, max(2, n - 1))
+	with warnings.catch_warnings():
+		warnings.simplefilter("ignore")
+		L = Table({"k": list(lk), "lid": list(range(n))})
+		R = Table({"r": list(rk), "rid": [100 + i for i in range(len(rk))]})
+		J.check_join(chk, chk.pid, "sampled", spec["how"], L, R, ["k"], ["r"], key_mode=spec["key_mode"], expect=spec["expect"], label=f"unique-keys-{spec['expect']}", sig=("unique-keys", spec["how"], spec["expect"], spec["kind"], spec["key_mode"]))
+
+
+RUNNERS["unique_keys_expect"] = run_unique_keys_expect
+
+
+def unique_keys_cases(chk, hows):
+	rng = chk.rng
+	for how in hows:
+		for expect in ("one_to_one", "many_to_one", "one_to_many", "many_to_many"):
+			for kind in ("str", "int", "date", "mixed-none"):
+				for key_mode in ("name", "vector"):
+					chk.case("unique_keys_expect", {"how": how, "expect": expect, "kind": kind, "key_mode": key_mode, "n": rng.choice([4, 6, 9]), "seed": rng.randrange(10**9)}, "unique-keys-expect")
+
+
 def run_repeated_key_column(chk, spec):
 	"""a composite key that names one column twice with different partners (ship_to = cust AND bill_to = cust; a = x AND a = y): every pair counts"""
 	L, R = common.mk_table(spec["left"]), common.mk_table(spec["right"])
@@ -527,3 +556,4 @@ def run(chk):
 	label_cases(chk, [HOW])
 	special_cases(chk, [HOW], 4 if chk.quick() else 25)
 	crossed_kept_cases(chk, [HOW], 6 if chk.quick() else 40)
+	unique_keys_cases(chk, [HOW])
